@@ -42,6 +42,24 @@ PROPS = {
         'design_ref': 'DESIGN.md 5 C02',
         'explanation': 'identifier contracts over the C01 encoders',
     },
+    'C03': {
+        'modules': ['contracts.c03'],
+        'level': 'other',
+        'trusted_base': COMMON_TB,
+        'assumptions': [
+            'BOUNDED, not proved: RawSignatureHash / SignatureHash(BASE) against the executable reference of the original consensus algorithm (specs/sighash.py), 800 generated (transaction, subscript, index, hash type) cases per run: mutable and immutable transactions, 0-3 inputs/outputs plus 252/253, CODESEPARATORs inside and outside push data, index = len(vin) and beyond, SINGLE without matching output, undefined hash-type bytes; the frame (transaction untouched, field by field) is part of the same bounded check',
+            'reason: the function mutates objects held in symbolic-length lists of a private copy; the engine has no array-heap model for that (DESIGN.md section 9)',
+            'KNOWN FINDING (not repaired): the legacy branch asserts on witness-program-shaped subscripts; excluded by precondition, replayed on every run',
+        ],
+        'level_text': 'Proved: FindAndDelete(subscript, OP_CODESEPARATOR) = concatenation of the byte ranges of all other '
+                      'operations, for every subscript that parses (position-loop invariant over the tokeniser step contract; '
+                      'CODESEPARATOR bytes inside push data are kept); RawSignatureHash returns (1, error) for a non-existent '
+                      'input index. Bounded: digest equality with the reference algorithm for all hash types, the SINGLE error '
+                      'case, ValueError mapping of the convenience form, and that the given transaction is never changed.',
+        'level_note': 'trusted: pyvc, z3/cvc5, specs/sighash.py (reference algorithm), C08 tokeniser contract',
+        'design_ref': 'DESIGN.md 5 C03',
+        'explanation': 'legacy sighash contracts',
+    },
     'C04': {
         'modules': ['contracts.c04'],
         'level': 'proof',
